@@ -248,6 +248,7 @@ func c11(r *core.Run) {
 			r.Unres("K1", short+".readTxn.<id>/<closed>", "cannot resolve the transaction's id field (returned by ID()) or its closed flag (the bool field)")
 			continue
 		}
+		c11LockHeldForTheWholeTransaction(r, "K1", rel, short)
 		if wclose == nil {
 			r.Bad("K1", short+".writeTxn", "declares-own-Close", "-", "the write transaction has no Close of its own: it would inherit the read transaction's Close and release the wrong lock mode")
 			continue
@@ -609,6 +610,7 @@ func c11(r *core.Run) {
 		}
 	}
 
+	c11ReadErrorAborts(r, "E3")
 	// ---- E3 (badgerstore) ----------------------------------------------------
 	// BadgerDB's Delete / Set succeed on a missing key: the not-found answer of Update / Delete comes
 	// from the read that precedes the write. Typestate in the transaction body: "existence known"
@@ -1599,4 +1601,151 @@ func c11FanoutAfterCommit(r *core.Run, rule, rel string) {
 		}
 		r.Check(inside == "" && outside > 0, rule, core.FuncName(m), "change-announced-after-commit", p.Pos(m.Pos()), "the change listeners are called by the method itself, after the transaction returned", "the change listeners are called inside the transaction closure ("+inside+") or not at all: a change is announced before the commit, also when the commit then fails (conflict) - listeners publish events and index a value that is not stored")
 	}
+}
+
+// c11LockHeldForTheWholeTransaction: between the acquire in Read / Write and
+// the release in the transaction's Close nothing releases a lock: no method of
+// a transaction type other than Close - nor anything it calls inside the
+// package (the change fan-out, helpers) - calls Unlock / RUnlock. Releasing
+// the store's lock "while the listeners run" lets another goroutine's write
+// transaction on the same id run to completion inside the open one.
+func c11LockHeldForTheWholeTransaction(r *core.Run, rule, rel, short string) {
+	p := r.P
+	for _, tn := range []string{"readTxn", "writeTxn"} {
+		for _, m := range methodsOf(p, rel, tn) {
+			if m.Name() == "Close" || len(m.Blocks) == 0 {
+				continue
+			}
+			seen := map[*ssa.Function]bool{}
+			bad := ""
+			var walk func(f *ssa.Function, d int)
+			walk = func(f *ssa.Function, d int) {
+				if f == nil || seen[f] || len(f.Blocks) == 0 || f.Pkg != m.Pkg || d > 6 {
+					return
+				}
+				seen[f] = true
+				for _, a := range f.AnonFuncs {
+					walk(a, d+1)
+				}
+				for _, c := range core.Calls(f) {
+					if k := isLockCall(c); k == "Unlock" || k == "RUnlock" {
+						bad = p.InstrPos(c)
+					}
+					if cal := c.Common().StaticCallee(); cal != nil && cal.Name() != "Close" {
+						walk(cal, d+1)
+					}
+				}
+			}
+			walk(m, 0)
+			r.Check(bad == "", rule, core.FuncName(m), "no-release-before-Close", p.Pos(m.Pos()), "nothing this method reaches inside the package releases a lock", "a lock is released (at "+bad+") in the middle of an open transaction - in a method other than Close, or in what it calls: another goroutine's write transaction on the same id can run inside the window, this transaction's later reads see the other's write, and its own writes are interleaved with it")
+		}
+	}
+}
+
+// c11ReadErrorAborts: in the transaction bodies of Update and Delete the read
+// of the stored value decides: on the edge where it reported an error - any
+// error - no database write is reachable. A body that carries on with "no
+// before-value" (a stored value that no longer decodes) removes or replaces
+// the value while its listeners are told before == nil: the indexes keep the
+// old entry and no query change is announced (C11.E3; shared as C14.N7).
+func c11ReadErrorAborts(r *core.Run, rule string) {
+	p := r.P
+	rel := "store/badgerstore"
+	mayGet := mayExec(p.FuncsOfPkg(rel), func(in ssa.Instruction) bool {
+		c, ok := in.(ssa.CallInstruction)
+		return ok && isBadgerCall(c, "Txn", "Get")
+	})
+	mayWrite := mayExec(p.FuncsOfPkg(rel), func(in ssa.Instruction) bool {
+		c, ok := in.(ssa.CallInstruction)
+		return ok && isTxnWrite(c)
+	})
+	n := 0
+	for _, mn := range []string{"Update", "Delete"} {
+		m := methodNamed(p, rel, "writeTxn", mn)
+		if m == nil {
+			r.Unres(rule, rel+".writeTxn."+mn, "missing")
+			continue
+		}
+		for _, body := range txnBodies(m) {
+			isWriteBlock := func(b *ssa.BasicBlock) bool {
+				for _, in := range b.Instrs {
+					c, ok := in.(ssa.CallInstruction)
+					if !ok {
+						continue
+					}
+					if isTxnWrite(c) {
+						return true
+					}
+					if cal := c.Common().StaticCallee(); cal != nil && cal.Pkg == body.Pkg && mayWrite[cal] {
+						return true
+					}
+				}
+				return false
+			}
+			for _, c := range core.Calls(body) {
+				cal := c.Common().StaticCallee()
+				if cal == nil || !(isBadgerCall(c, "Txn", "Get") || (cal.Pkg == body.Pkg && mayGet[cal] && !mayWrite[cal])) || c.Value() == nil || c.Value().Referrers() == nil {
+					continue
+				}
+				var errv ssa.Value
+				for _, rf := range *c.Value().Referrers() {
+					if ex, ok := rf.(*ssa.Extract); ok && types.TypeString(ex.Type(), nil) == "error" {
+						errv = ex
+					}
+				}
+				if errv == nil {
+					continue
+				}
+				n++
+				bad := ""
+				for _, b := range body.Blocks {
+					iff, ok := b.Instrs[len(b.Instrs)-1].(*ssa.If)
+					if !ok {
+						continue
+					}
+					ci := core.Cond(iff.Cond)
+					if ci.Kind != "nilcmp" || !(core.Strip(ci.X) == errv || sameVariable(core.Strip(ci.X), errv) || storedFrom(core.Strip(ci.X), errv)) {
+						continue
+					}
+					failSucc := 1
+					if (ci.Op == token.NEQ) != ci.Negate {
+						failSucc = 0
+					}
+					seen := map[*ssa.BasicBlock]bool{}
+					st := []*ssa.BasicBlock{b.Succs[failSucc]}
+					for len(st) > 0 {
+						x := st[len(st)-1]
+						st = st[:len(st)-1]
+						if seen[x] {
+							continue
+						}
+						seen[x] = true
+						if isWriteBlock(x) {
+							bad = p.InstrPos(x.Instrs[0])
+						}
+						st = append(st, x.Succs...)
+					}
+				}
+				r.Check(bad == "", rule, core.FuncName(body), "read-error-reaches-no-write:"+cal.Name(), p.InstrPos(c), "on the edge where the read of the stored value failed no write is reachable", "a database write (block at "+bad+") is reachable on the edge where reading the stored value reported an error: the value is replaced or removed although its before-value is unknown - the change listeners get before == nil, the indexes keep the entry of the old value and no query change is announced")
+			}
+		}
+	}
+	if n == 0 {
+		r.Unres(rule, rel+".writeTxn.<read-in-body>", "no read of the stored value with an error result in the bodies of Update / Delete")
+	}
+}
+
+// storedFrom: v is a load of a cell whose (only) stored values include w
+// (`before, err = read(); if err != nil`, with err a captured or outer variable).
+func storedFrom(v, w ssa.Value) bool {
+	ld, ok := v.(*ssa.UnOp)
+	if !ok || ld.Op != token.MUL || ld.X.Referrers() == nil {
+		return false
+	}
+	for _, rf := range *ld.X.Referrers() {
+		if st, ok := rf.(*ssa.Store); ok && st.Addr == ld.X && core.Strip(st.Val) == w && st.Block() == ld.Block() {
+			return true
+		}
+	}
+	return false
 }
